@@ -31,13 +31,15 @@ def gen_scn(rng):
 
 
 def gen_plan(rng, sc):
-    g = rng.choice(['stream', 'stream', 'eof', 'state', 'lineno'])
+    g = rng.choice(['stream', 'stream', 'eof', 'state', 'lineno', 'buffers', 'buffers'])
     if g == 'stream':
         p = workload.gen_stream_plan(rng, sc)
     elif g == 'eof':
         p = workload.gen_eof_plan(rng, sc)
     elif g == 'state':
         p = workload.gen_state_plan(rng, sc)
+    elif g == 'buffers':
+        p = workload.gen_buffer_plan(rng, sc)
     else:
         p = workload.gen_lineno_plan(rng, sc)
     it = p.insts[0]
